@@ -14,3 +14,15 @@
 (assert (forall ((SP (Array Int Int)) (SP2 (Array Int Int)) (HP (Array Int (Array Int Fp))) (EL (Array Int Int)) (eo Int) (n Int))
   (! (=> (forall ((j Int)) (=> (and (<= 0 j) (< j (* 32 n))) (= (select SP j) (select SP2 j)))) (= (benc SP HP EL eo n) (benc SP2 HP EL eo n)))
      :pattern ((benc SP HP EL eo n) (benc SP2 HP EL eo n)))))
+; bunc(SP,HP,EL,eo,n): the first n 64-byte chunks of SP are the uncompressed encodings of the first n elements: bytes 0..31
+; the canonical big-endian affine x = X/Z, bytes 32..63 the affine y = Y/Z
+(declare-fun bunc ((Array Int Int) (Array Int (Array Int Fp)) (Array Int Int) Int Int) Bool)
+(assert (forall ((SP (Array Int Int)) (HP (Array Int (Array Int Fp))) (EL (Array Int Int)) (eo Int)) (! (bunc SP HP EL eo 0) :pattern ((bunc SP HP EL eo 0)))))
+(assert (forall ((SP (Array Int Int)) (HP (Array Int (Array Int Fp))) (EL (Array Int Int)) (eo Int) (n Int)) (! (=> (>= n 0) (= (bunc SP HP EL eo (+ n 1))
+    (and (bunc SP HP EL eo n)
+         (fpbytesAt SP (* 64 n) 32 (fp_mul (select (select HP (select EL (+ eo (* 2 n)))) (+ (select EL (+ eo (* 2 n) 1)) 0)) (fp_inv (select (select HP (select EL (+ eo (* 2 n)))) (+ (select EL (+ eo (* 2 n) 1)) 2)))))
+         (fpbytesAt SP (+ (* 64 n) 32) 32 (fp_mul (select (select HP (select EL (+ eo (* 2 n)))) (+ (select EL (+ eo (* 2 n) 1)) 1)) (fp_inv (select (select HP (select EL (+ eo (* 2 n)))) (+ (select EL (+ eo (* 2 n) 1)) 2))))))))
+  :pattern ((bunc SP HP EL eo (+ n 1))))))
+(assert (forall ((SP (Array Int Int)) (SP2 (Array Int Int)) (HP (Array Int (Array Int Fp))) (EL (Array Int Int)) (eo Int) (n Int))
+  (! (=> (forall ((j Int)) (=> (and (<= 0 j) (< j (* 64 n))) (= (select SP j) (select SP2 j)))) (= (bunc SP HP EL eo n) (bunc SP2 HP EL eo n)))
+     :pattern ((bunc SP HP EL eo n) (bunc SP2 HP EL eo n)))))
